@@ -184,6 +184,17 @@ def legacy_runs(arg: dict) -> list[dict]:
     from a816.symbols import Resolver
     mode = {"low": RomType.low_rom, "low2": RomType.low_rom_2, "high": RomType.high_rom}[arg["mode"]]
     # the mapping the assembler uses in this mode: the file offset it gives the converted address
+    # the other mapping modes are used in this process first (what a mode maps must not depend on it)
+    for other in (RomType.low_rom, RomType.low_rom_2, RomType.high_rom):
+        if other != mode:
+            ro = Resolver()
+            ro.rom_type = other
+            bo = ro.get_bus()
+            for bank in range(256):
+                try:
+                    bo.get_address((bank << 16) | 0x8000).physical
+                except Exception:
+                    pass
     rs = Resolver()
     rs.rom_type = mode
     bus = rs.get_bus()
@@ -365,6 +376,9 @@ def expr_contexts(arg: dict) -> list[dict]:
             body = f"val := {text}\n.dl val\n"
         elif ctx == "macro":
             body = f".macro mm(p) {{\n.dl p\n}}\nmm({text})\n"
+        elif ctx == "deep":
+            # two blocks below the definitions, the inner ones defining nothing
+            body = "{\n{\n.dl " + text + "\n}\n}\n"
         elif ctx == "macro2":
             # the expression is the SECOND argument; the first parameter is named like an identifier of the call site
             import re as _re
@@ -460,12 +474,21 @@ def include_ips_case(arg: dict) -> dict:
 # ------------------------------------------------------------------------------------------
 # tables (C18)
 # ------------------------------------------------------------------------------------------
+# characters outside ASCII travel through the specification as ASCII placeholders (one symbol each)
+PLACEHOLDER = {"<e1>": "\u00e9", "<e2>": "\u00e7", "<e3>": "\u3042"}
+UNPLACE = {v: k for k, v in PLACEHOLDER.items()}
+
+
+def _ch(c: str) -> str:
+    return PLACEHOLDER.get(c, c)
+
+
 def render_table(entries: list[dict]) -> str:
-    return "".join("".join(f"{b:02X}" for b in e["code"]) + "=" + "".join(e["text"]) + "\n" for e in entries)
+    return "".join("".join(f"{b:02X}" for b in e["code"]) + "=" + "".join(_ch(c) for c in e["text"]) + "\n" for e in entries)
 
 
 def render_symbols(s: list[dict]) -> str:
-    return "".join(x["v"] if x["k"] == "c" else f"[0x{x['v']:02X}]" for x in s)
+    return "".join(_ch(x["v"]) if x["k"] == "c" else f"[0x{x['v']:02X}]" for x in s)
 
 
 def table_codec(arg: dict) -> list[dict]:
@@ -479,7 +502,7 @@ def table_codec(arg: dict) -> list[dict]:
         try:
             b = t.to_bytes(text)
             back = t.to_text(b)
-            out.append({"bytes": list(b), "back": list(back)})
+            out.append({"bytes": list(b), "back": [UNPLACE.get(c, c) for c in back]})
         except BaseException as e:  # noqa: BLE001
             out.append({"bytes": [-1], "back": [], "err": f"{type(e).__name__}: {e}"})
     return out
@@ -489,14 +512,23 @@ def table_program(arg: dict) -> dict:
     files = {f"t{k + 1}.tbl": {"text": render_table(t)} for k, t in enumerate(arg["tables"])}
     lines = [f"*=0x{arg['org']:06x}"]
     nscope = 0
+    stack: list = []
     for it in arg["items"]:
         if it["k"] == "open":
             nscope += 1
-            lines.append("{" if arg.get("scope_style", "block") == "block" or nscope % 2 else f".scope ns{nscope} {{")
+            style = arg.get("scope_style", "block")
+            if style == "macro" and nscope % 2:
+                # a parameterless macro applied once right after its definition: an application is a scope too
+                lines.append(f".macro tm{nscope}() {{")
+                stack.append(f"}}\ntm{nscope}()")
+                continue
+            stack.append("}")
+            lines.append("{" if style == "block" or nscope % 2 else f".scope ns{nscope} {{")
         elif it["k"] == "ifopen":
             lines.append(".if 1 {")
+            stack.append("}")
         elif it["k"] in ("close", "ifclose"):
-            lines.append("}")
+            lines.append(stack.pop())
         elif it["k"] == "table":
             lines.append(f".table 't{it['t']}.tbl'")
         else:
@@ -572,6 +604,14 @@ SESSION_SOURCES = {
     "fileFail": {"entry": "file", "main": "dirF/main.s",
                  "files": {"dirF/main.s": {"text": "*=0x008000\n.db 1\n.dl undefined_sym_f\n"}, "dirF/lib.s": {"text": "libval = 9\n.db 0x99\n"},
                            "dirF/blob.bin": {"bytes": [9, 9, 9]}, "dirF/t.tbl": {"text": "31=a\n32=b\n"}, "dirF/p.ips": {"bytes": _IPS}}},
+    # a named scope's constant exported while the enclosing scope has defined nothing yet
+    "scopeconst": {"src": ".scope config {\ndebug = 1\nlevel = 0x42\n}\n*=0x008000\n.db config.level\n"},
+    "p_usesscope": {"src": "*=0x008000\n.if config.debug {\n.db 0xAA\n} else {\n.db 0x55\n}\n.db config.level\n"},
+    # a relative branch to one logical address under HiROM, then under LoROM
+    "highbr": {"src": "*=0x418000\nagain:\nnop\nbne again\nbra again\n", "rom": "high"},
+    "p_lowbr": {"src": "*=0x418000\nagain:\nnop\nbne again\nbra again\n"},
+    # an included binary whose file name is not an identifier
+    "p_incbinDash": {"src": "*=0x008000\n.incbin 'font-8x8.bin'\nafter:\n.dl after\n", "files": {"font-8x8.bin": {"bytes": [1, 2, 3, 4, 5]}}},
     "p_fileA": {"entry": "file", "main": "dirA/main.s",
                 "files": {"dirA/main.s": {"text": "*=0x008000\n.include 'defs.s'\n.db val\n"}, "dirA/defs.s": {"text": "val = 1\n"}}},
     "p_fileC": {"entry": "file", "main": "dirC/main.s",
